@@ -105,9 +105,17 @@ def alias_equal(s):
     the library's behaviour must not depend on object identity."""
     from harness.codec import enc_obj
 
+    from gym_gridverse.grid_object import Box, Door
+
+    def mutable(o):
+        # a Door is updated in place by actuate_door, so two cells sharing one Door instance are not two
+        # doors (no reset function or copy ever builds that); the same holds for anything inside a Box
+        return isinstance(o, Door) or (isinstance(o, Box) and mutable(o.content))
+
     pool = {}
     rows = s.grid.objects
     for i, row in enumerate(rows):
         for j, o in enumerate(row):
-            rows[i][j] = pool.setdefault(enc_obj(o), o)
+            if not mutable(o):
+                rows[i][j] = pool.setdefault(enc_obj(o), o)
     return s
